@@ -16,7 +16,8 @@ CONSTANTS
     NameSeq,     \* label names LabelValues is asked for
     LnSeq,       \* label_names lists of Series; LnSeq[1] = <<>>
     Plan,        \* "T" (time series) | "M" (merged profile) | "L" (types, labels, series, stats, analyze) | "A" (all)
-    ExportMod, ExportSeed
+    ExportMod, ExportSeed,
+    Repaired     \* the quirks of ProfSeries!AllQuirks the code no longer has (x05.py: REPAIRED); they stay mutations of the mechanism
 
 VARIABLES db, req
 vars == <<db, req>>
@@ -126,13 +127,23 @@ Def ==
       [] req.ep = "AnalyzeQuery"       -> DefAnalyze(db, RQ)
       [] req.ep = "GetProfileStats"    -> DefStats(db)
       [] OTHER                         -> [none |-> TRUE]
-FiredOf(ma) == {q \in AllQuirks : ma # Mech(AllQuirks \ {q})}
+\* the code as it is
+AsCoded == AllQuirks \ Repaired
+\* the quirks an endpoint's mechanism reads at all (the others cannot change its answer)
+EpQuirks == CASE req.ep = "SelectSeries"       -> {"avg_sql", "avg_per_sample", "type_cross", "dup_series", "groupby_order"}
+              [] req.ep = "SelectMergeProfile" -> {"type_cross", "merge_lineless", "merge_emptystack", "merge_incompatible", "stale_unit"}
+              [] req.ep = "Series"             -> {"dup_labelsets", "names_ignored", "second_matcher_lost"}
+              [] OTHER                         -> {}
+\* the quirks of Q that fire: switching one off changes the answer ma = Mech(Q)
+FiredOf(ma, Q) == {q \in Q \cap EpQuirks : ma # Mech(Q \ {q})}
 
 (******************************* invariants ********************************)
 \* the mechanism with every quirk repaired is the definition
 MechEqDef     == Mech({}) = Def
-\* wherever the mechanism as coded differs from the definition, switching off one single quirk changes its answer
-QuirksExplain == LET ma == Mech(AllQuirks) IN ma # Def => FiredOf(ma) # {}
+\* wherever the mechanism with every quirk, or the mechanism as coded, differs from the definition, switching off one single
+\* quirk changes its answer
+QuirksExplain == /\ LET ma == Mech(AllQuirks) IN ma # Def => FiredOf(ma, AllQuirks) # {}
+                 /\ LET ma == Mech(AsCoded)   IN ma # Def => FiredOf(ma, AsCoded) # {}
 Laws ==
     CASE req.ep = "SelectSeries"       -> LawConservation(db, RQ) /\ LawGrouping(db, RQ) /\ LawTypes(db, RQ.T)
       [] req.ep = "SelectMergeProfile" -> LawMergeTotal(db, RQ)
@@ -147,7 +158,16 @@ DbHash == SumF([i \in Idx(db) |-> (IF i = 1 THEN 17 ELSE IF i = 2 THEN 19 ELSE 2
 \* quirks, so that a code base in which an error quirk has been repaired is still recognised
 ErrQuirks == {"avg_sql", "merge_lineless", "merge_emptystack", "merge_incompatible"}
 IsErr(a)  == IF req.ep \in {"SelectSeries", "SelectMergeProfile"} THEN a.err # {} ELSE FALSE
-CaseRec(d, ma, fired) ==
+\* the answer and the firing quirks of Mech(Q \ ErrQuirks) when ma = Mech(Q) is an error
+Second(ma, Q, d) == IF IsErr(ma) THEN LET m2 == Mech(Q \ ErrQuirks) IN [ans |-> m2, fired |-> IF m2 = d THEN {} ELSE FiredOf(m2, Q \ ErrQuirks)]
+                    ELSE [ans |-> ma, fired |-> {}]
+\* coded / fired (coded2 / fired2): the prediction for the code as it is, AsCoded.  mut / mutfired (mut2 / mutfired2): the
+\* mechanism with EVERY quirk, the repaired ones included: where a repaired quirk would fire, and what a code base that has
+\* it again would answer (equal to coded / fired while nothing is repaired)
+CaseRec(d, ma, fired, mm, mfired) ==
+    LET s2 == Second(ma, AsCoded, d)
+        t2 == IF Repaired = {} THEN s2 ELSE Second(mm, AllQuirks, d)
+    IN
     [db    |-> [i \in Idx(db) |-> [svc |-> Svc(db[i]), tags |-> Tags(db[i]), tl |-> TL(db[i]), per |-> Per(db[i]),
                                    bag |-> Bag(db[i]), t |-> db[i].t]],
      step  |-> Step,
@@ -155,21 +175,27 @@ CaseRec(d, ma, fired) ==
      def   |-> d,
      coded |-> ma,
      fired |-> fired,
-     coded2 |-> IF IsErr(ma) THEN Mech(AllQuirks \ ErrQuirks) ELSE ma,
-     fired2 |-> IF IsErr(ma)
-                THEN LET m2 == Mech(AllQuirks \ ErrQuirks)
-                     IN  IF m2 = d THEN {} ELSE {q \in AllQuirks \ ErrQuirks : m2 # Mech((AllQuirks \ ErrQuirks) \ {q})}
-                ELSE fired]
+     \* the optional answers are sequences of 0 or 1 answer: <<>> = "the same as the one before" (coded2: as coded, mut: as coded,
+     \* mut2: as mut)
+     coded2 |-> IF IsErr(ma) THEN <<s2.ans>> ELSE <<>>,
+     fired2 |-> IF IsErr(ma) THEN s2.fired ELSE fired,
+     mut    |-> IF mm = ma THEN <<>> ELSE <<mm>>,
+     mutfired |-> mfired,
+     mut2   |-> IF IsErr(mm) THEN <<t2.ans>> ELSE <<>>,
+     mutfired2 |-> IF IsErr(mm) THEN t2.fired ELSE mfired]
 Selected == req.ep # "none" /\ ExportMod # 0 /\ (DbHash + ExportSeed) % ExportMod = 0
 
-\* the three invariants above and the export in ONE evaluation of the definition and of the two mechanisms per state
+\* the three invariants above and the export in ONE evaluation of the definition and of the mechanisms per state
 \* (x05.py checks this one; when it fails the run is repeated with the three named invariants to say which)
 AllChecks ==
-    LET d     == Def
-        ma    == Mech(AllQuirks)
-        fired == IF ma = d THEN {} ELSE FiredOf(ma)
+    LET d      == Def
+        ma     == Mech(AsCoded)
+        fired  == IF ma = d THEN {} ELSE FiredOf(ma, AsCoded)
+        mm     == IF Repaired = {} THEN ma ELSE Mech(AllQuirks)
+        mfired == IF Repaired = {} THEN fired ELSE IF mm = d THEN {} ELSE FiredOf(mm, AllQuirks)
     IN  /\ Mech({}) = d
         /\ ma # d => fired # {}
+        /\ mm # d => mfired # {}
         /\ Laws
-        /\ Selected => PrintT(<<"X05CASE", ToJson(CaseRec(d, ma, fired))>>)
+        /\ Selected => PrintT(<<"X05CASE", ToJson(CaseRec(d, ma, fired, mm, mfired))>>)
 =============================================================================
